@@ -150,8 +150,8 @@ impl<'brand> DagLike for &'_ ResolvedExpression<'brand> {
             | ResolvedInner::AssertR(ResolvedCmr::Expr(ref left), ref right) => {
                 Dag::Binary(left, right)
             }
-            ResolvedInner::AssertL(ref child, ResolvedCmr::Literal)
-            | ResolvedInner::AssertR(ResolvedCmr::Literal, ref child) => Dag::Unary(child),
+            ResolvedInner::AssertL(ref child, ResolvedCmr::Literal(..))
+            | ResolvedInner::AssertR(ResolvedCmr::Literal(..), ref child) => Dag::Unary(child),
             ResolvedInner::Inline(ref inner) => inner.as_dag().map(|node| node),
         }
     }
@@ -159,7 +159,7 @@ impl<'brand> DagLike for &'_ ResolvedExpression<'brand> {
 
 enum ResolvedCmr<'brand> {
     Expr(Arc<ResolvedExpression<'brand>>),
-    Literal,
+    Literal(crate::Cmr),
 }
 
 enum ResolvedInner<'brand> {
@@ -343,7 +343,7 @@ fn parse_inner<J: Jet>(
                             right.in_degree.fetch_add(1, Ordering::SeqCst);
                             ResolvedCmr::Expr(right)
                         }
-                        ast::AstCmr::Literal => ResolvedCmr::Literal,
+                        ast::AstCmr::Literal(cmr) => ResolvedCmr::Literal(*cmr),
                     };
                     ResolvedInner::AssertL(left, right)
                 }
@@ -354,7 +354,7 @@ fn parse_inner<J: Jet>(
                             left.in_degree.fetch_add(1, Ordering::SeqCst);
                             ResolvedCmr::Expr(left)
                         }
-                        ast::AstCmr::Literal => ResolvedCmr::Literal,
+                        ast::AstCmr::Literal(cmr) => ResolvedCmr::Literal(*cmr),
                     };
 
                     let right = inline_stack.pop().unwrap();
@@ -466,6 +466,13 @@ fn parse_inner<J: Jet>(
                     }
                     converted.push(child);
                     continue;
+                }
+                // with a literal CMR the only child is the left one
+                ResolvedInner::AssertL(_, ResolvedCmr::Literal(cmr)) => {
+                    left.map(|left| node::Inner::AssertL(left, cmr))
+                }
+                ResolvedInner::AssertR(ResolvedCmr::Literal(cmr), _) => {
+                    left.map(|right| node::Inner::AssertR(cmr, right))
                 }
                 ResolvedInner::AssertL(..) => left.zip(right).map(|(left, right)| {
                     let cmr = right.cmr();
